@@ -10,6 +10,7 @@ cp evidence/$PROP.json /tmp/seedtest.evidence 2>/dev/null
 VERIF_REPLAY_DIR=/tmp/seedtest.replays ./check "$PROP" --tier "$TIER" > /tmp/seedtest.out 2> /tmp/seedtest.err
 RC=$?
 git -C /repo checkout -- .
+python3 /verif/tools/translate.py > /dev/null 2>&1
 cp /tmp/seedtest.evidence evidence/$PROP.json 2>/dev/null
 echo "exit=$RC"
 grep -E "VIOLATION|KNOWN" /tmp/seedtest.out | head -5
